@@ -30,20 +30,11 @@ thread_local! {
     static ERR_STACK: std::cell::RefCell<Vec<ErrTarget>> = const { std::cell::RefCell::new(Vec::new()) };
 }
 
-/// Set when the stand-in meets shell syntax or a command it does not model. A check that sees
-/// this flag reports a harness error instead of mistaking the stand-in's failure for the
-/// behaviour of a real remote shell.
-pub static STUB_UNSUPPORTED: std::sync::Mutex<Option<String>> = std::sync::Mutex::new(None);
-
+// Shell syntax or a command the stand-in does not model is reported through the simulated
+// world's "unsupported" flag: the check then reports a harness error instead of mistaking the
+// stand-in's failure for the behaviour of a real remote shell.
 fn unsupported(what: &str) {
-    let mut g = STUB_UNSUPPORTED.lock().unwrap();
-    if g.is_none() {
-        *g = Some(what.to_string());
-    }
-}
-
-pub fn take_unsupported() -> Option<String> {
-    STUB_UNSUPPORTED.lock().unwrap().take()
+    copia_simworld::kernel::note_unsupported(what);
 }
 
 fn eprint_proc(msg: &str) {
